@@ -166,6 +166,8 @@ public:
     {
         m_eigs->init();
         m_nconv = m_eigs->compute(SortRule::LargestAlge, maxit, tol);
+        // Drop the eigenvectors cached by matrix_U()/matrix_V() for a previous call
+        m_evecs.resize(0, 0);
 
         return m_nconv;
     }
